@@ -209,7 +209,7 @@ theorem ml_em_monotone_fin (cfg : MlCfg (C+1) D ℝ) (p : Params (C+1) D ℝ) (X
     intro c d
     simp only [hp', mlMStep, mlMeans, stOf]
     split_ifs
-    · simp only [htn]; exact Sq_mean_le p X c d _
+    · simp only [htn, if_neg (not_lt.mpr (hcount c))]; exact Sq_mean_le p X c d _
     · exact le_refl _
   rw [Finset.sum_add_distrib]
   apply add_nonneg
@@ -223,7 +223,9 @@ theorem ml_em_monotone_fin (cfg : MlCfg (C+1) D ℝ) (p : Params (C+1) D ℝ) (X
   · apply Finset.sum_nonneg; intro c _; apply Finset.sum_nonneg; intro d _
     by_cases huv : cfg.updVars = true
     · have hraw : p'.variances c d = mlRawVar cfg p (stOf p X) c d := by
-        simp only [hp', mlMStep, huv, if_true]; exact max_eq_right (hfl huv c d)
+        simp only [hp', mlMStep, huv, if_true]
+        have hc : ¬ (stOf p X).n c < cfg.countThr := not_lt.mpr (hcount c)
+        rw [if_neg hc]; exact max_eq_right (hfl huv c d)
       have hpos := hfl0 huv c d
       have hsq : Sq p X c d (p'.means c d) = Nst p X c * mlRawVar cfg p (stOf p X) c d := by
         have hN := (Nst_pos p X c).ne'
